@@ -25,7 +25,7 @@ PROPS = {
              {"d.bb": ["states", "main", "inv"], "d.setparams": "*", "d.validate": "*"},
              assumptions=["the whole-block theorem is proved on the single-denomination core; on the code-tied multi-denomination model the per-step facts are proved (faithful_sub_step, payoutLoop_keeps_books) and every generated block is compared with the core by the bridge; their composition over the whole loop is not proved",
                           "account ids in generated configurations are ASCII (Lean String order = Go byte order)"]),
-    "C04": P(["C4E.Props.C04"], ["C4E.Props.C04"],
+    "C04": P(["C4E.Props.C04", "C4E.Props.C04b"], ["C4E.Props.C04"],
              [("distr", 300, 4000)],
              {"d.bb": ["states", "main", "bal", "burned"], "d.setparams": "*"},
              exact_ops=["d.bb"]),
@@ -126,7 +126,7 @@ REQUIRED = {
  'C01':['transfer_conserves','transfer_others_untouched','sweep_moves_exactly','payout_conserves','applySend_total','handle_total','vesting_never_changes_supply','distributor_block_ledger','bank_send_ledger','bank_burn_ledger','custom_beginblock_supply','custom_beginblock_balances','tie_bank_mutators','tie_minter_before_distributor'],
  'C02':['path_independent','cadence_irrelevant','valid_of_validate','linear_exact','carry_exact','exParams_valid'],
  'C03':['books_after_block','books_after_block_nonvacuous','books_after_block_bridge','bridge_checked_block','allSubOkB_sound','nonnegB_sound','validated_params_books','faithful_sub_step','faithful_block_books','reach_blockInv','books_after_every_block','reach_nonNegativeStates','faithful_block_nonvacuous','blockInv_empty'],
- 'C04':['share_truncation','allocation_conserves','no_main_dest_all_to_states','cumulative_allocation','payout_carry','cumulative_receipts_drift','faithful_allocation_conserves','distShares_states'],
+ 'C04':['share_truncation','allocation_conserves','no_main_dest_all_to_states','cumulative_allocation','payout_carry','cumulative_receipts_drift','faithful_allocation_conserves','distShares_states','faithful_destination_receives'],
  'C05':['withdraw_keeps_poolOk','send_keeps_poolOk','withdraw_locked_delta','rejected_noop','createPool_inv','withdrawAll_inv','sendToNew_inv','createVA_same','splitCoins_same','handle_inv','deliver_inv','backed_over_histories','c05_every_reachable_state','inv_implies_registered','inv_genesis'],
  'C06':['locked_nothing','matured_everything','withdraw_twice_total','withdraw_idempotent','query_agrees'],
  'C07':['unlock_exact','orig_over_releases','unlock_exact_nonvacuous'],
